@@ -243,6 +243,19 @@ def drive(lines):
 _MODULE = None
 
 
+def _raised_in_implementation(ex):
+    """True when the innermost frame of the traceback that belongs to cardutil or the harness is cardutil's"""
+    import traceback
+    frames = traceback.extract_tb(ex.__traceback__)
+    for fr in reversed(frames):
+        fn = fr.filename.replace(os.sep, '/')
+        if '/cardutil/' in fn and '/verif/' not in fn:
+            return True
+        if '/verif/harness/' in fn:
+            return False
+    return False
+
+
 def _worker(args):
     """evaluate one chunk of cases: implementation in-process, model through a driver process"""
     mod_name, chunk, use_model = args
@@ -256,8 +269,26 @@ def _worker(args):
             r = with_watchdog(lambda: mod.impl_eval(case), getattr(mod, 'WATCHDOG_S', 5.0))
         except CaseTimeout:
             r = {'obs': 'timeout', 'violation': 'implementation did not terminate within the watchdog'}
+        except Exception as ex:  # noqa
+            # every scenario stays inside its property's domain, so an exception RAISED INSIDE cardutil that the
+            # scenario did not anticipate is a failure of the scenario's expectation; one raised by harness code
+            # itself is a harness problem and stays an infrastructure error
+            if not _raised_in_implementation(ex):
+                raise
+            r = {'obs': f'escaped:{type(ex).__name__}',
+                 'violation': f'{type(ex).__name__} ({str(ex)[:120]}) escaped from cardutil in a scenario inside the '
+                              f"property's domain"}
         impl.append(r)
-    lines = [mod.model_line(c) for c in chunk]
+    lines = []
+    line_errors = {}
+    for i, c in enumerate(chunk):
+        try:
+            lines.append(mod.model_line(c))
+        except Exception as ex:  # noqa
+            if not _raised_in_implementation(ex):
+                raise
+            lines.append(None)
+            line_errors[i] = f'{type(ex).__name__}: {str(ex)[:120]}'
     if use_model:
         flat, idx = [], []
         for i, ln in enumerate(lines):
@@ -291,6 +322,10 @@ def _worker(args):
             if m != exp:
                 res['mismatch'].append({'case': case, 'implementation': exp, 'model': m,
                                         'request': lines[i]})
+        if i in line_errors:
+            res['mismatch'].append({'case': case, 'implementation': r.get('obs'),
+                                    'model': 'n/a (building the model request needed the implementation, which raised '
+                                             + line_errors[i] + ')', 'request': None})
         if len(res['samples']) < 2:
             res['samples'].append({'case': case, 'implementation': r.get('obs')})
     return res
